@@ -178,10 +178,11 @@ class SymDict(object):
 
 
 class SymSet(object):
-    """Set with unknown prior contents."""
-    def __init__(self, label):
+    """Set with unknown prior contents.  A copy (set(S), S.copy()) shares the unknown part with its base."""
+    def __init__(self, label, base=None):
         self.label = label
-        self.added = []
+        self.added = list(base.added) if base is not None else []
+        self.base = base
 
     def __repr__(self):
         return 'SymSet(%s)' % self.label
@@ -248,6 +249,7 @@ class Interp(object):
         self.sys_path = ['<sys.path[0]>']
         self.memoise_cached = False
         self.guarded_getattr = 0
+        self.fs = None             # concrete fake file system (set of paths) or None = symbolic
 
     # ---- path exploration ------------------------------------------------
     def reset_path(self, prefix):
@@ -688,9 +690,6 @@ class Interp(object):
     def nat_tuple(self, args, kwargs):
         return tuple(self.iterate(args[0])) if args else ()
 
-    def nat_set(self, args, kwargs):
-        return set(self.iterate(args[0])) if args else set()
-
     def nat_dict(self, args, kwargs):
         return dict(*args, **kwargs)
 
@@ -730,6 +729,8 @@ class Interp(object):
 
     def nat_exists(self, args, kwargs):
         self.effect('probe', args[0])
+        if self.fs is not None:
+            return str(args[0]) in self.fs
         return self.decide(('exists', str(args[0])))
 
     def nat_getmtime(self, args, kwargs):
@@ -763,6 +764,8 @@ class Interp(object):
     nat_insort_right = nat_insort
 
     def nat_set(self, args, kwargs):
+        if args and isinstance(args[0], SymSet):
+            return SymSet(args[0].label, args[0])
         return set(self.iterate(args[0])) if args else set()
 
     def nat_str(self, args, kwargs):
